@@ -73,6 +73,7 @@ def run(an: Analysis, rep):
     ci = table_class(an)
     rep.run(r031, an, rep, ci)
     rep.run(r032, an, rep, ci)
+    rep.run(r032_sole_writer, an, rep, ci)
     rep.run(r033, an, rep, ci)
     rep.run(c08.r084, an, rep, rule="R03.4")
     rep.run(r035, an, rep)
@@ -81,6 +82,12 @@ def run(an: Analysis, rep):
     rep.run(r038, an, rep)
     from .common import SharedRules
     from . import c02, c04, c10
+    from .common import truthiness_rule
+    rep.run(truthiness_rule, an, rep, "R03.9", ["to_code"], [("Instruction", "line_number"), ("AdditionalLine", "line")])
+    from . import c01, c11
+    shf = SharedRules(rep, "R03.F", "every flag described by the data is written into co_flags exactly when its datum is set (shared with C11's R11.3): 'flags ... are as described'")
+    for V in VERSIONS:
+        rep.run(c11.r113, an, shf, V, c01._dispositions(an, V)[0])
     from . import c05
     rep.run(c05.r053, an, SharedRules(rep, "R03.D", "docstring slot (shared with C05's R05.3): a function described with docstring None must not get its first string constant read as __doc__"))
     rep.run(c10.format_rules, an, SharedRules(rep, "R03.L", "line-table format constants (shared with C10's R10.*): 'each instruction carries the given line'"))
@@ -194,6 +201,37 @@ def r032(an, rep, ci: ClassInfo):
             f"`{norm_src(test)}` rejects 1 vs True / 1.0 / 2 at one index and accepts 1 vs 1" if res == want else
             f"`{norm_src(test)}` rejects {sorted(k for k, v in res.items() if v)} only: values are looked up by their key ({keyattr}) but collisions are compared with ==, "
             f"so Constant(1, 0) and Constant(True, 0) pass the check (1 == True) and the table silently becomes (True,)")
+
+
+def r032_sole_writer(an, rep, ci: ClassInfo):
+    """Every entry reaches the index map through the checked setter: a method that stores into the map directly skips the collision check."""
+    imap = _index_map_attr(ci)
+    sm = ci.methods["__setitem__"]
+    n = 0
+    for m in ci.methods.values():
+        if m is sm:
+            continue
+        self_ = m.params[0] if m.params else None
+        for st in ast.walk(m.node):
+            tgt = None
+            if isinstance(st, ast.Assign):
+                for t in st.targets:
+                    if isinstance(t, ast.Subscript) and isinstance(t.value, ast.Attribute) and t.value.attr == imap and isinstance(t.value.value, ast.Name) and t.value.value.id == self_:
+                        tgt = t
+            if isinstance(st, ast.Call) and isinstance(st.func, ast.Attribute) and st.func.attr in ("setdefault", "update", "__setitem__") and isinstance(st.func.value, ast.Attribute) \
+                    and st.func.value.attr == imap and isinstance(st.func.value.value, ast.Name) and st.func.value.value.id == self_:
+                tgt = st
+            if tgt is not None:
+                own_check = any(isinstance(c, ast.Compare) and isinstance(c.ops[0], (ast.In, ast.NotIn)) and isinstance(c.comparators[0], ast.Attribute) and c.comparators[0].attr == imap
+                                for c in ast.walk(m.node))
+                if own_check:
+                    raise AnalysisError(f"{m.qual}: stores into {imap} directly after a membership test of its own: whether that test is the collision check is not decided")
+                n += 1
+                rep.add("R03.2", f"{m.qual}::stores into {imap} only through the checked setter", False, loc(m.module, st),
+                        f"`{norm_src(st)[:70]}` writes the index map directly, without the collision check of {sm.name}: an index already taken by an earlier position override "
+                        f"(e.g. index len(table)) is silently overwritten, and the instruction that used it loads another value")
+    rep.add("R03.2", f"{ci.qual}::{imap} is written by {sm.name} only", n == 0, loc(ci.module, ci.node),
+            f"no other method of {ci.name} stores into {imap}" if n == 0 else f"{n} direct store(s) outside {sm.name}", nontrivial=False)
 
 
 def r033(an, rep, ci: ClassInfo):
